@@ -151,3 +151,132 @@ Theorem snapshot_writer_is_separator_free :
   Gen.C12.legacy_key_deleted_on_write = true.
 Proof. exact (conj eq_refl (conj eq_refl eq_refl)). Qed.
 Print Assumptions snapshot_writer_is_separator_free.
+
+(** ------------------------------------------------------------------------------------------
+    Second round (proofs in Valset/KeepAliveMore.v, Valset/JailShareFloat.v). *)
+From Paloma Require Import Valset.KeepAliveMore.
+From Paloma Require Valset.JailShareFloat.
+
+(** 8. The comma-joined entry of earlier binaries.  In every history from an empty chain, whatever
+    blob was left behind: once ONE end-block has run the entry is gone and stays gone … *)
+Theorem legacy_gone_after_first_end_block :
+  forall (version : Type) (vlt : version -> version -> bool)
+         (h0 t0 : Z) (legacy : option (list Z)) (m : version) (ops1 : list (op version)) (dh dt : Z) (ops2 : list (op version)),
+  snap_legacy (run vlt (ops1 ++ EndBlock dh dt :: ops2) (init h0 t0 legacy m)) = None.
+Proof. exact legacy_gone_after_first_end_block_proof. Qed.
+Print Assumptions legacy_gone_after_first_end_block.
+
+(** … so theorem 1 holds without the hypothesis [snap_legacy s = None] for every history that contains
+    an end-block (the first one is the only "legacy block"). *)
+Theorem inactive_jailed_after_upgrade :
+  forall (version : Type) (vlt : version -> version -> bool)
+         (h0 t0 : Z) (legacy : option (list Z)) (m : version) (ops1 : list (op version)) (dh0 dt0 : Z)
+         (ops2 : list (op version)) (v : val) (dh dt : Z),
+  let s := run vlt (ops1 ++ EndBlock dh0 dt0 :: ops2) (init h0 t0 legacy m) in
+  is_check_height (height s) = true ->
+  In v (vals s) -> eligible_status (v_status v) = true -> v_jailed v = false ->
+  is_alive s (v_addr v) = false ->
+  In (v_addr v) (prev_unjailed s) ->
+  in_grace s (v_addr v) = false ->
+  exists v', find_val (v_addr v) (vals (step vlt s (EndBlock dh dt))) = Some v' /\
+             (v_jailed v' = true \/ protected (vals (step vlt s (EndBlock dh dt))) v').
+Proof. exact inactive_jailed_after_upgrade_proof. Qed.
+Print Assumptions inactive_jailed_after_upgrade.
+
+(** 9. The legacy block itself can only GRANT grace.  [prev] = the list the earlier binary wrote
+    (raw addresses joined by 0x2c), all validator addresses of one length [L] (20 on a real chain).
+    The grace update that still finds the entry: never denies a new grace period to a validator that
+    is unjailed now and is not in [prev]; changes an entry only to the current height; is exact for
+    members of [prev] without 0x2c; deletes the entry.  (A member of [prev] WITH 0x2c may get a
+    spurious grace period, once.) *)
+Theorem legacy_block_only_grants :
+  forall (version : Type) (s s1 : state version) (prev : list addr) (L : nat) (a : addr),
+  snap_legacy s = Some (legacy_join prev) ->
+  Forall (fun x => List.length x = L) prev -> List.length a = L -> a <> [] ->
+  update_grace s = Some s1 ->
+  (In a (unjailed_addrs (vals s)) -> ~ In a prev -> lookup a (grace s1) = Some (height s)) /\
+  (lookup a (grace s1) = lookup a (grace s) \/ lookup a (grace s1) = Some (height s)) /\
+  (In a prev -> ~ In sep a -> lookup a (grace s1) = lookup a (grace s)) /\
+  snap_legacy s1 = None /\ prev_unjailed s1 = unjailed_addrs (vals s).
+Proof. exact legacy_block_only_grants_proof. Qed.
+Print Assumptions legacy_block_only_grants.
+
+(** … and its end-block never jails anybody wrongly: in every history that starts from an upgraded
+    store, at the first end-block, a validator with an unexpired keep-alive, with a running grace
+    period, or entitled to a new one (unjailed now, not in [prev]) is left untouched. *)
+Theorem legacy_block_never_jails_wrongly :
+  forall (version : Type) (vlt : version -> version -> bool)
+         (h0 t0 : Z) (prev : list addr) (m : version) (pre : list (op version)) (L : nat) (a : addr) (dh dt : Z),
+  Forall (fun o => is_end_block version o = false) pre ->
+  Forall (fun x => List.length x = L) prev -> List.length a = L -> a <> [] ->
+  let s := run vlt pre (init h0 t0 (Some (legacy_join prev)) m) in
+  (is_alive s a = true \/ in_grace s a = true \/ (In a (unjailed_addrs (vals s)) /\ ~ In a prev)) ->
+  find_val a (vals (step vlt s (EndBlock dh dt))) = find_val a (vals s) /\
+  snap_legacy (step vlt s (EndBlock dh dt)) = None.
+Proof. exact legacy_block_never_jails_wrongly_proof. Qed.
+Print Assumptions legacy_block_never_jails_wrongly.
+
+(** 10. A grace period that is running BEFORE the end-block (stored start at most 30 blocks old)
+    protects through it, in any state: with [alive_never_jailed] this is "responsive or in grace:
+    never jailed for inactivity", both on the pre-state. *)
+Theorem running_grace_never_jailed :
+  forall (version : Type) (vlt : version -> version -> bool) (s : state version) (a : addr) (dh dt : Z),
+  in_grace s a = true ->
+  find_val a (vals (step vlt s (EndBlock dh dt))) = find_val a (vals s).
+Proof. exact running_grace_never_jailed_proof. Qed.
+Print Assumptions running_grace_never_jailed.
+
+(** 11. Repeated jailings lengthen the sentence along the fixed schedule — over every history
+    (inactivity sweeps, valset.Jail from other modules before or after valset's end-blocker, external
+    jail / unjail, anything).  A validator's jail record always holds a table entry and the matching
+    jailed-until; the next successful Jail inside the reset window max(30 min, d + d/20) records exactly
+    the NEXT table entry (strictly longer unless already at the last), otherwise the first entry. *)
+Theorem repeated_jailing_walks_the_table :
+  forall (version : Type) (vlt : version -> version -> bool)
+         (h0 t0 : Z) (legacy : option (list Z)) (m : version) (ops : list (op version)) (a : addr) (d t : Z),
+  let s := run vlt ops (init h0 t0 legacy m) in
+  lookup a (jlog s) = Some (d, t) ->
+  lookup a (until s) = Some (t + d) /\
+  exists i, (i < List.length Gen.C12.jail_sentences)%nat /\ d = nth i Gen.C12.jail_sentences 0 /\
+    forall s', jail s a = (s', true) ->
+      let d' := if now s - t <? reset_threshold d
+                then nth (Nat.min (S i) (List.length Gen.C12.jail_sentences - 1)) Gen.C12.jail_sentences 0
+                else hd 0 Gen.C12.jail_sentences in
+      lookup a (jlog s') = Some (d', now s) /\ lookup a (until s') = Some (now s + d') /\
+      (now s - t < reset_threshold d -> d < last Gen.C12.jail_sentences 0 -> d < d').
+Proof. exact repeated_jailing_walks_the_table_proof. Qed.
+Print Assumptions repeated_jailing_walks_the_table.
+
+(** 12. DESIGN §6.12 [jail_share_float_exact]: the code's IEEE-754 binary64 test
+    [float64(cp)/float64(total) > 0.25] (Flocq: round-to-nearest-even conversions and division,
+    x/0 = +Inf, 0/0 = NaN, comparisons with NaN false) is the model's exact integer test whenever both
+    powers are below 2^53.  The margin is exactly tight ([JailShareFloat.jail_share_float_bound_needed]).
+    Depends on the standard library's real-number axioms (named in props/C12.json). *)
+Theorem jail_share_float_exact : forall cp total : Z,
+  0 <= cp < 2^53 -> 0 <= total < 2^53 ->
+  JailShareFloat.share_gt_quarter_f64 cp total = share_protected cp total.
+Proof. exact jail_share_float_exact_proof. Qed.
+Print Assumptions jail_share_float_exact.
+
+(** 13. Observation (d), decided against the property text.  C12 obliges the chain to jail a silent
+    validator "unless it became unjailed within the grace period"; it promises immunity only to a
+    validator with an unexpired keep-alive (theorem 2, any state).  The grace period is an exemption
+    from the obligation, not a promise — and the code does not give it after every unjailing: a
+    validator jailed AFTER the grace update of block h (by the sweep of the same end-block, or by a
+    module whose end-blocker runs after valset's) and unjailed before the grace update of block h+1 is
+    still in the previous-block snapshot, gets no new grace period, and is jailed again at the next
+    check — 9 blocks after its unjailing in the witness.  So "never jailed within 30 blocks of an
+    unjailing" is refuted (witness replayed on the real keeper: harness/corpus/C12/d_*.json), while
+    "never jailed with an unexpired keep-alive / a running grace period" are theorems. *)
+Theorem grace_after_every_unjailing_refuted :
+  exists (ops : list (op Z)) (a : addr) (h_unjail : Z),
+    let s := run Z.ltb ops (init 1 0 None 7) in
+    let s' := run Z.ltb (ops ++ [EndBlock 1 2000000000]) (init 1 0 None 7) in
+    (* [a] was unjailed (by an Unjail event) at height h_unjail, at most 30 blocks ago, is unjailed now … *)
+    In (Unjail a) ops /\ height s - h_unjail <= Gen.C12.grace_period /\
+    (exists v, find_val a (vals s) = Some v /\ v_jailed v = false) /\
+    (* … has no running grace period, and this end-block jails it for inactivity *)
+    in_grace s a = false /\
+    (exists v, find_val a (vals s') = Some v /\ v_jailed v = true).
+Proof. exact ObservationD.grace_after_every_unjailing_refuted_proof. Qed.
+Print Assumptions grace_after_every_unjailing_refuted.
